@@ -73,7 +73,7 @@ def decode_structured(fdp, kind, ts):
   """a nearly well-formed input: documented shape with drawn deviations in size, entries and nesting"""
   dev = fdp.ConsumeIntInRange(0, 9)
   n = fdp.ConsumeIntInRange(1, 4) if dev != 0 else 0
-  d = D if dev not in (1, 2) else D + (1 if dev == 1 else -1)
+  d = D if dev not in (1, 2) else [D + 1, D - 1, 1, 2 * D][fdp.ConsumeIntInRange(0, 3)]
   t = ts if dev != 3 else fdp.ConsumeIntInRange(1, 5)
   clean = dev >= 5
   if kind == 'points':
